@@ -350,16 +350,28 @@ class RecMgr:
     """Recording event manager (registered on charts as a class; instantiated per run by the engine)."""
     idx = 0
 
+    def _bind(self) -> None:
+        # the engine creates the managers per run (context): an instance that serves two runs would share whatever
+        # per-run state a real manager keeps on `self`
+        rid = RUN.get()
+        mine = self.__dict__.setdefault('_mc_world_run', (id(CUR), rid))
+        if mine != (id(CUR), rid):
+            CUR.log.append(('anomaly', rid, 'manager-instance-shared-between-runs', f'{type(self).__name__} of run {mine[1]} also serves run {rid}'))
+
     async def on_pipeline_start(self, ctx) -> None:
+        self._bind()
         await collab('pipeline_start', None, None, self.idx)
 
     async def on_pipeline_complete(self, ctx, result) -> None:
+        self._bind()
         await collab('pipeline_complete', None, result, self.idx)
 
     async def on_node_start(self, ctx, node_id) -> None:
+        self._bind()
         await collab('node_start', node_id, None, self.idx)
 
     async def on_node_complete(self, ctx, node_id, error) -> None:
+        self._bind()
         await collab('node_complete', node_id, error, self.idx)
 
 
@@ -377,6 +389,9 @@ class RecStore:
         from ml_pipeline_engine.artifact_store.errors import ArtifactAlreadyExists
         w = CUR
         rid = RUN.get()
+        mine = self.__dict__.setdefault('_mc_world_run', (id(w), rid))
+        if mine != (id(w), rid):
+            w.log.append(('anomaly', rid, 'store-instance-shared-between-runs', f'store of run {mine[1]} also serves run {rid}'))
         key = (rid, 'save', 0)
         k = w.collab_count.get(key, 0)
         w.collab_count[key] = k + 1
